@@ -55,6 +55,7 @@ def run(ctx):
         ctx.guard(snapshot, ctx, cfg, fs)
         ctx.guard(scope_restore, ctx, cfg, fs)
         ctx.guard(tokenizer_append_only, ctx, cfg, fs)
+        ctx.guard(tokenizer_context_free, ctx, cfg, fs)
         ctx.guard(consumers.accept_sets, ctx, cfg, fs, 'A.accept-sets')
         import c08, c09, c11, c02
         ctx.guard(c08.keep_only, ctx, lambda: c02.equals_value(ctx, cfg, fs), lambda o: True, 'A.accept-sets')
@@ -82,6 +83,31 @@ def tokenizer_append_only(ctx, cfg, fs):
     cons = ctx.look(fs.one(r'^args::inner::State::construct$'))
     pushes = [c for x in [cons] + [fs.bodies[n_] for c_ in cons.calls() for n_ in c_.names if n_ in fs.bodies] for c in x.calls() if c.is_(r'Vec::<arg::Arg.*>::push$')]
     ctx.ob('T.tokenizer', 'construct:pushes', len(pushes) >= 5 and n >= 1, 'State::construct and its helpers build the item list with %d push sites and %d shrinking site(s)' % (len(pushes), n), where=cons.where(), cfg=cfg)
+
+def tokenizer_context_free(ctx, cfg, fs, rule='T.tokenizer'):
+    """what an argv word is tokenized into depends on the word, on the declared short names and on whether `--` has been seen -
+    never on the items produced for OTHER words: while the list is being built it is only appended to (push), measured (len)
+    and rolled back (truncate).  Reading an element back (last(), first_mut(), indexing, iteration) makes the meaning of a word
+    depend on its neighbours, i.e. on where the user happened to write it."""
+    ALLOWED = r'^std::vec::Vec::<.*>::(push|len|truncate|with_capacity|new|is_empty|reserve|capacity)$'
+    n = 0
+    for path in ('args::inner::State::construct', 'args::disambiguate_short'):
+        b = ctx.look(fs.body(path))
+        reads = []
+        for x in fs.family(b):
+            for c in x.calls():
+                if 'arg::Arg' not in c.full or not c.args:
+                    continue
+                if not c.is_(r'^std::vec::Vec::<', r'^core::slice::<impl \[T\]>::', r'Index<', r'IndexMut<', r'Vec<.*> as std::ops::Deref', r'IntoIterator'):
+                    continue
+                if not re.search(r'Vec<arg::Arg>|\[arg::Arg\]', ' '.join(str(x.local_ty((op_place(a) or [0])[0])) for a in c.args[:1])):
+                    continue
+                n += 1
+                if not c.is_(ALLOWED):
+                    reads.append('%s at %s' % (c.name.split('::')[-1], x.where(c.bb)))
+        ctx.ob(rule, '%s:items-never-read-back' % short(path), not reads, '%s only appends to / measures / rolls back the item list under construction: %s' % (short(path), reads or 'ok'), where=b.where(), cfg=cfg)
+    if n < 6:
+        raise Broken('tokenizer_context_free: only %d operations on the item list found' % n)
 
 def discipline(ctx, cfg, fs):
     for (b, c, cls, d) in conversion_sites(fs):
